@@ -75,6 +75,12 @@ def main():
         except OSError:
             pass
 
+    chk = None
+    if tier == 'thorough' and b['build_ok'] and pc['ok'] and not os.environ.get('VERIF_NO_COQCHK'):
+        chk = core.coqchk(prop)
+        if not chk['ok']:
+            broken.append({'kind': 'obligation', 'what': 'coqchk rejected BacProps.%s' % prop, 'log': chk['log']})
+
     # 4. correspondence
     rng = random.Random(seed * 1000003 + 17)
     cases, mism, cerrors = [], [], []
@@ -178,6 +184,7 @@ def main():
             'exhaustive': bool(dstats.get('exhaustive', False)),
             'known_findings_reported': known_lines,
             'broken': [x['what'] for x in broken],
+            'coqchk': ({'cmd': chk['cmd'], 'ok': chk['ok'], 'context_summary': chk['log']} if chk else 'not run in this tier'),
         },
         'assumptions': list(getattr(mod, 'ASSUMPTIONS', [])),
         'wall_s': round(time.time() - t0, 2),
